@@ -81,7 +81,7 @@ def run(ctx):
     spath = os.path.join(ctx.dir, "stats-charts.json")
     ctx.drv(["c18-param", "kind=charts", "out=" + rpath, "stats=" + spath, "seed=%d" % ctx.seed], timeout=1200)
     st = json.load(open(spath))
-    if st.get("extend-moved", 0) == 0:
+    if st.get("extend-moved", 0) == 0 and not st.get("aborted_after_hangs"):
         raise Infra("ExtendBoundaryUVs moved no vertex in any record: the extend clause would be vacuous")
     rej = judge(ctx, "charts", rpath, st["records"])
     ctx.stage("charts", kind="V", records=st["records"], rejected=rej)
